@@ -344,7 +344,67 @@ def ws_proxy():
                 errorEnds=bool(uses) and all(u == "propagated" for u in uses), cancelSafe=whole)
 
 
+TIMER = r"\b(sleep|sleep_until|interval|interval_at|timeout|timeout_at|recv_timeout|park_timeout|retry\w*|backoff\w*)\s*\("
+
+# timers in the write paths today: (file, function) -> number of timer/sleep/timeout/retry call sites
+TIMERS_TODAY = {
+    ("src/client.rs", "write_request"): 0,
+    ("src/async_client.rs", "write_request"): 0,
+    ("src/websocket_client.rs", "write_request"): 0,
+    ("src/server.rs", "handle_connection"): 0,
+    ("src/async_server.rs", "handle_connection"): 3,      # read timeout, write timeout, flush timeout
+    ("src/async_server.rs", "write_view_response"): 0,
+    ("src/websocket_server.rs", "writer_task"): 3,        # drain deadline on queued sends, on Close, on close()
+    ("src/websocket_server.rs", "frame_outbound"): 0,
+    ("src/websocket_server.rs", "proxy_connection_with_limits"): 0,
+    ("src/io.rs", "write_message"): 0,
+    ("src/io.rs", "write_message_streaming"): 0,
+    ("src/async_io.rs", "write_message_async"): 0,
+}
+OWNER = {"src/client.rs": "blockingClient", "src/async_client.rs": "asyncClient", "src/websocket_client.rs": "wsClient",
+         "src/server.rs": "blockingServer", "src/async_server.rs": "asyncServer", "src/io.rs": "blockingServer", "src/async_io.rs": "asyncServer"}
+
+
+def new_timers():
+    """A timer, sleep, timeout or retry arm that is not there today, inside a function the write path runs through,
+    is reported as one more ignored result for that endpoint (pessimistic): what a delayed retry does to a frame
+    in progress cannot be read off the form."""
+    extra = {}
+    for (rel, fn), today in TIMERS_TODAY.items():
+        try:
+            body = fn_body(src_of(rel), fn)
+        except Exception:
+            continue
+        n = len(re.findall(TIMER, body))
+        if n > today:
+            if rel == "src/websocket_server.rs":
+                owner = "wsProxy" if fn == "proxy_connection_with_limits" else "wsServer"
+            else:
+                owner = OWNER[rel]
+            extra[owner] = extra.get(owner, 0) + (n - today)
+    return extra
+
+
+def disciplined(single):
+    return dict(singleWriter=single, lockRegions=0 if single else 1, writesOutsideLock=0, wholeWrites=True, ignoredResults=0,
+                errorEnds=True, cancelSafe=True)
+
+
 def extract():
+    timers = new_timers()
+    try:
+        facts = extract_forms()
+    except ExtractError:
+        if not timers:
+            raise
+        # the forms are not recognised AND a timer appeared in a write path: that is not a harmless rewrite
+        facts = {n: disciplined(n in ("blockingServer", "asyncServer", "wsServer", "wsProxy")) for n in ORDER}
+    for owner, n in timers.items():
+        facts[owner]["ignoredResults"] += n
+    return facts
+
+
+def extract_forms():
     hw = framing_helpers_whole()
     return {
         "blockingClient": blocking_client(hw),
